@@ -4,13 +4,15 @@
    unreachable: (Reader cursor: mod.rs:336 subtraction, :458 assertion, :469 assertion, frame_control.unwrap()) from EVERY state of the cursor model;
    (palette.rs: every slice/index of create_rgba_palette) for EVERY PLTE/tRNS payload - the call returns Ok; (adam7.rs: the `Invalid Adam7Info.pass`
    panic and the indexing of expand_pass) for every pass 1..7, line, width, stride and legal pixel size; (stream.rs) a StreamingDecoder::update call
-   never exhausts its loop budget and an error or panic outcome always poisons the decoder.  NOT COVERED BY ANY THEOREM: panics in code that is
+   never exhausts its loop budget and an error or panic outcome always poisons the decoder; and the two panic sites of the stream machine
+   (`self.state.take().unwrap()`, the fdAT sequence-number `debug_assert!(remaining >= 4)`/subtraction) are unreachable for EVERY byte sequence, EVERY
+   option set, limit and cutting of the input and for ANY behaviour of the inflater, also after reset(); the chunk parsers have no panic outcome.  NOT COVERED BY ANY THEOREM: panics in code that is
    not modelled (std, fdeflate, zlib.rs / unfiltering_buffer.rs index arithmetic, transform row loops, text decoding), aborts on allocation failure
    and arithmetic overflow of un-modelled expressions: these are searched on every run with catch_unwind in a build with overflow checks. *)
 From Coq Require Import List Arith Bool Lia.
 Import ListNotations.
 From PngV Require Import Model.Reader Proofs.ReaderProofs.
-From PngV Require Import Base.Bytes Spec.TransformSpec Model.Transform Proofs.TransformProofs Spec.Adam7Spec Gen.GenAdam7 Model.Adam7 Proofs.Adam7Proofs Proofs.Adam7Expand Base.Crc Gen.GenStream Model.Stream Proofs.StreamProofs.
+From PngV Require Import Base.Bytes Spec.TransformSpec Model.Transform Proofs.TransformProofs Spec.Adam7Spec Gen.GenAdam7 Model.Adam7 Proofs.Adam7Proofs Proofs.Adam7Expand Base.Crc Gen.GenStream Model.Stream Proofs.StreamProofs Model.StreamRun Proofs.StreamNoPanic.
 
 (* Reader: next_frame / row calls / next_frame_info / finish, any state, any visible input prefix *)
 Theorem C02_reader_cursor_never_panics :
@@ -57,8 +59,32 @@ Theorem C02_update_never_spins_and_errors_poison :
         st (fst (update zinf zall utf8_valid s buf)) = None).
 Proof. exact update_terminates_and_progresses. Qed.
 
+(* stream.rs: whole runs of update from a fresh decoder, any input, any options, any cuts, any inflater *)
+Theorem C02_stream_machine_never_panics :
+  forall (zinf : bool -> list Z -> list Z * dstatus) (zall : list Z -> option (list Z))
+         (utf8_valid : list Z -> bool) (o : options) (limit : Z) (ps : list (list Z)),
+       Forall bytes_ok ps ->
+       forall k : nat, snd (feed zinf zall utf8_valid (init_state o limit) ps) <> RPanic k.
+Proof. exact stream_machine_never_panics. Qed.
+
+(* stream.rs: the same after reset() *)
+Theorem C02_stream_machine_never_panics_after_reset :
+  forall (zinf : bool -> list Z -> list Z * dstatus) (zall : list Z -> option (list Z))
+         (utf8_valid : list Z -> bool) (s : dstate) (ps : list (list Z)),
+       Forall bytes_ok ps -> forall k : nat, snd (feed zinf zall utf8_valid (reset_model s) ps) <> RPanic k.
+Proof. exact stream_machine_never_panics_after_reset. Qed.
+
+(* stream.rs: parse_chunk and all its per-chunk parsers *)
+Theorem C02_chunk_parsers_have_no_panic_outcome :
+  forall (zall : list Z -> option (list Z)) (utf8_valid : list Z -> bool) (s : dstate) (ty : Z),
+       no_panic (snd (parse_chunk zall utf8_valid s ty)).
+Proof. exact parse_chunk_np. Qed.
+
 
 Print Assumptions C02_reader_cursor_never_panics.
 Print Assumptions C02_palette_table_never_panics.
 Print Assumptions C02_expand_interlaced_row_never_panics.
 Print Assumptions C02_update_never_spins_and_errors_poison.
+Print Assumptions C02_stream_machine_never_panics.
+Print Assumptions C02_stream_machine_never_panics_after_reset.
+Print Assumptions C02_chunk_parsers_have_no_panic_outcome.
